@@ -432,6 +432,49 @@ pub fn classify(ctx: &Context, line: &str, ans_bits: (u64, u64)) -> Classified {
     }
 }
 
+/// `text` with every numeric literal (digits not preceded by a letter, with their separators, fraction
+/// and exponent) replaced by `1`; digits inside names stay
+pub fn reduce_numbers(text: &str) -> String {
+    let cs: Vec<char> = text.chars().collect();
+    let n = cs.len();
+    let mut out = String::with_capacity(n);
+    let mut i = 0;
+    // inside a name (a letter or underscore followed by letters, digits, underscores)
+    let mut in_name = false;
+    while i < n {
+        let c = cs[i];
+        if c.is_alphabetic() || c == '_' {
+            in_name = true;
+        } else if !(c.is_ascii_digit() && in_name) {
+            in_name = false;
+        }
+        if c.is_ascii_digit() && !in_name {
+            let mut j = i;
+            while j < n && (cs[j].is_ascii_digit() || cs[j] == '_' || cs[j] == '.' || cs[j] == '\u{2009}' || cs[j] == '\\') {
+                j += 1;
+            }
+            if j < n && (cs[j] == 'e' || cs[j] == 'E') {
+                let mut k = j + 1;
+                while k < n && "eE+-\\_ ".contains(cs[k]) {
+                    k += 1;
+                }
+                if k < n && cs[k].is_ascii_digit() {
+                    while k < n && (cs[k].is_ascii_digit() || cs[k] == '_') {
+                        k += 1;
+                    }
+                    j = k;
+                }
+            }
+            out.push('1');
+            i = j;
+        } else {
+            out.push(c);
+            i += 1;
+        }
+    }
+    out
+}
+
 /// The static bound applied to a whole definitions text: every expression of every definition the
 /// definitions parser finds in it is sized like a query's (names the text defines itself are not in
 /// `ctx`: they count as 2048-bit values). Some(reason) when one of them is on the expensive side of
@@ -482,5 +525,12 @@ mod huge_power_tests {
         assert!(!has_huge_power("x 2^3^2"));
         assert!(!has_huge_power("m^2 kg^-3 10^24"));
         assert!(!has_huge_power("a^5000"));
+    }
+    #[test]
+    fn reduce() {
+        use super::reduce_numbers;
+        assert_eq!(reduce_numbers("K_J90 4395^8^9 u0 + 1e\\982810912 m2"), "K_J90 1^1^1 u0 + 1 m2");
+        assert_eq!(reduce_numbers("x .272__e___2________000000000 7"), "x .1 1");
+        assert_eq!(reduce_numbers("cyc12x 2 cyc13x"), "cyc12x 1 cyc13x");
     }
 }
